@@ -47,6 +47,35 @@ class ClsRef(object):
         self.cinfo = cinfo
 
 
+class SeqList(list):
+    """A Python list built inside loops: the items are symbolic (one per append site, in terms of the loop variables) and
+    `prov[k]` is the loop nest ((tag, range key), ...) that produced item k ('()' for an item appended outside any loop).
+    A list whose single item has provenance G stands for the sequence [item(v) for v in G] in iteration order."""
+    def __init__(self, items=(), prov=None):
+        list.__init__(self, items)
+        self.prov = list(prov) if prov is not None else [()] * len(self)
+
+    def copy_seq(self):
+        return SeqList(list(self), list(self.prov))
+
+    def seq(self):
+        """(item, gens) if the list is one comprehension-like sequence, else None"""
+        if len(self) == 1 and len(self.prov) == 1 and self.prov[0]:
+            return self[0], tuple(self.prov[0])
+        return None
+
+
+def copy_list(v):
+    return v.copy_seq() if isinstance(v, SeqList) else list(v)
+
+
+class IterVal(object):
+    """iter(seq): remembers the sequence and the loop depth at which it was created"""
+    def __init__(self, seq, depth):
+        self.seq = seq
+        self.depth = depth
+
+
 class Obj(object):
     """Symbolic instance of a repo class."""
     def __init__(self, cls, name="self"):
@@ -57,7 +86,7 @@ class Obj(object):
 
     def clone(self):
         o = Obj(self.cls, self.name)
-        o.attrs = {k: (list(v) if isinstance(v, list) else v) for k, v in self.attrs.items()}
+        o.attrs = {k: (copy_list(v) if isinstance(v, list) else v) for k, v in self.attrs.items()}
         o.attr_log = list(self.attr_log)
         return o
 
@@ -140,7 +169,7 @@ class State(object):
             if isinstance(v, Obj):
                 v = v.clone()           # per-path object state
             elif isinstance(v, list):
-                v = list(v)
+                v = copy_list(v)
             elif k in ("__alias__", "__views__", "__ranks__"):
                 v = dict(v)
             env[k] = v
@@ -708,6 +737,42 @@ class Interp(object):
                         attrs.append(b)
         return names, attrs
 
+    def _unit_counter(self, body, name):
+        """every write of `name` in the (nested) body is `name += 1`, executed exactly once per innermost iteration: a
+        statement of the body of the innermost loop that contains it, not under an `if`"""
+        found = [False]
+
+        def block(stmts, in_loop_body):
+            for st_ in stmts:
+                if isinstance(st_, ast.AugAssign) and isinstance(st_.target, ast.Name) and st_.target.id == name:
+                    if not (isinstance(st_.op, ast.Add) and isinstance(st_.value, ast.Constant) and st_.value.value == 1):
+                        return False
+                    found[0] = True
+                    continue
+                if isinstance(st_, ast.For):
+                    if any(isinstance(x, ast.Name) and x.id == name and isinstance(x.ctx, ast.Store) for x in ast.walk(st_)):
+                        # the counter is advanced inside the nested loop: then not also at this level
+                        if not block(st_.body, True):
+                            return False
+                    continue
+                if any(isinstance(x, ast.Name) and x.id == name and isinstance(x.ctx, ast.Store) for x in ast.walk(st_)):
+                    return False        # written under an if / while / try, or plainly assigned
+            return True
+        ok = block(body, True)
+        if not ok or not found[0]:
+            return False
+        # not advanced at two nesting levels at once
+        levels = set()
+
+        def depth_of(stmts, d):
+            for st_ in stmts:
+                if isinstance(st_, ast.AugAssign) and isinstance(st_.target, ast.Name) and st_.target.id == name:
+                    levels.add(d)
+                elif isinstance(st_, ast.For):
+                    depth_of(st_.body, d + 1)
+        depth_of(body, 0)
+        return len(levels) == 1
+
     def _logs(self):
         return [self.assign_log, self.store_log, self.call_log, self.loop_log, self.alloc_log, self.alias_log, self.while_log]
 
@@ -786,6 +851,9 @@ class Interp(object):
         fq = ctx.finfo.fq
         ctx.loop_depth += 1
         tag = "L@%s" % ctx.loop_depth          # alpha-renamed loop variable: nesting depth, not the source name
+        if not hasattr(ctx, "loop_stack"):
+            ctx.loop_stack = []
+        ctx.loop_stack.append((tag, _itkey(it), st))
         # bind loop target symbolically
         body_state = s.fork("for %s in %s" % (norm_text(st.target), norm_text(st.iter)))
         tv = self.loop_target_value(st.target, it, tag)
@@ -832,7 +900,21 @@ class Interp(object):
                 e0 = entry.get(n)
                 if isinstance(e0, Rat) and (vkey(e0) == vkey(at_entry) or _safe_equals(e0, at_entry)):
                     body_state.env[n] = prev
+        # a counter advanced by exactly one per innermost iteration numbers the iterations: inside the body it holds
+        # start + rank(iteration) for the nest from the loop where it starts
+        body_start = {}
+        for n in carried:
+            if n in entry and self._unit_counter(st.body, n):
+                e0 = entry[n]
+                ra = e0.single_atom() if isinstance(e0, Rat) else None
+                if isinstance(e0, Rat) and e0.is_const():
+                    body_state.env[n] = Rat.atom(Fn("rank", (e0, ((tag, _itkey(it)),))))
+                    body_start[n] = body_state.env[n]
+                elif isinstance(ra, Fn) and ra.name == "rank":
+                    body_state.env[n] = Rat.atom(Fn("rank", (ra.args[0], tuple(ra.args[1]) + ((tag, _itkey(it)),))))
+                    body_start[n] = body_state.env[n]
         outs = self.exec_block(st.body, [body_state], ctx)
+        ctx.loop_stack.pop()
         ctx.loop_depth -= 1
         live = [o for o in outs if o.ret is NORET]
         rets = [o for o in outs if o.ret is not NORET and o.ret is not RAISE]
@@ -853,33 +935,43 @@ class Interp(object):
             return v.subst(f)
         after = s
         # lists built by .append inside the body (one symbolic iteration per live path): keep what the body appended
+        here = ((tag, _itkey(it)),)
+
+        def extended(v0, news):
+            """v0 + the items the body appended; each new item remembers the loop nest that produced it"""
+            ext, prov = [], []
+            for v1 in news:
+                if isinstance(v1, list) and len(v1) > len(v0):
+                    p1 = v1.prov if isinstance(v1, SeqList) else [()] * len(v1)
+                    for k_ in range(len(v0), len(v1)):
+                        ext.append(v1[k_])
+                        prov.append(here + tuple(p1[k_]))
+            if not ext:
+                return None
+            p0 = v0.prov if isinstance(v0, SeqList) else [()] * len(v0)
+            return SeqList(list(v0) + ext, list(p0) + prov)
         for n, v0 in list(s.env.items()):
             if isinstance(v0, list):
-                ext = []
-                for o_ in live:
-                    v1 = o_.env.get(n)
-                    if isinstance(v1, list) and len(v1) > len(v0):
-                        ext.extend(v1[len(v0):])
-                if ext:
-                    after.env[n] = v0 + ext
+                new_ = extended(v0, [o_.env.get(n) for o_ in live])
+                if new_ is not None:
+                    after.env[n] = new_
             elif isinstance(v0, Obj):
                 for k_, a0 in list(v0.attrs.items()):
                     if isinstance(a0, list):
-                        ext = []
+                        news = []
                         for o_ in live:
                             o1 = o_.env.get(n)
-                            a1 = o1.attrs.get(k_) if isinstance(o1, Obj) else None
-                            if isinstance(a1, list) and len(a1) > len(a0):
-                                ext.extend(a1[len(a0):])
-                        if ext:
-                            v0.attrs[k_] = a0 + ext
+                            news.append(o1.attrs.get(k_) if isinstance(o1, Obj) else None)
+                        new_ = extended(a0, news)
+                        if new_ is not None:
+                            v0.attrs[k_] = new_
         for n in carried:
             acc = self._accum_terms(st.body, n)
             if acc is not None and n in entry and len(live) == 1 and isinstance(entry[n], Rat):
                 total = live[0].env.get(n)
                 # body evaluated with env[n] = entry value: increment = total - entry
                 if isinstance(total, Rat):
-                    inc = total - entry[n]
+                    inc = total - body_start.get(n, entry[n])
                     after.env[n] = entry[n] + Rat.atom(Fn("loopsum", (bound(inc), btag, _itkey(it))))
                     continue
             vals = [o.env.get(n) for o in live]
@@ -1274,9 +1366,13 @@ class Interp(object):
                 if isinstance(lo, int) and lo < 0 and hi is None and stp in (None, 1):
                     return tuple(self.shape_elem(o.v, i) for i in range(lo, 0))
             return Rat.atom(Fn("shape", (o.v, idx)))
+        if isinstance(o, SeqList) and isinstance(idx, Rat):
+            got = self.seq_read(o, idx)
+            if got is not None:
+                return got
         if isinstance(o, (tuple, list)):
             c = pyconst(idx) if isinstance(idx, Rat) else None
-            if isinstance(c, int) and -len(o) <= c < len(o):
+            if isinstance(c, int) and -len(o) <= c < len(o) and not (isinstance(o, SeqList) and o.seq() is not None):
                 return o[c]
             if isinstance(idx, tuple) and idx and idx[0] == "slice":
                 lo, hi, stp = [None if x is None else pyconst(x) for x in idx[1:]]
@@ -1310,6 +1406,31 @@ class Interp(object):
                 return la.args[0].subst(lambda a: at if a == var else None)
             return Rat.atom(Fn("getitem", (o, idx)))
         return unk("subscript", repr(o))
+
+    def seq_read(self, seq, idx):
+        """seq[rank]: the item of a loop-built sequence at the position numbered by a rank counter of an identical nest"""
+        sq = seq.seq()
+        ra = idx.single_atom()
+        if sq is None or not (isinstance(ra, Fn) and ra.name == "rank"):
+            return None
+        start, gens = ra.args
+        if not (isinstance(start, Rat) and start.is_zero()):
+            return unk("seq_read_offset", _vk(start))
+        return self.align_seq(sq[0], sq[1], tuple(gens))
+
+    def align_seq(self, item, prov, gens):
+        """item of a sequence produced by nest `prov`, as seen from an iteration of nest `gens`: defined when the two nests
+        enumerate the same index space in the same order (same ranges after renaming the loop variables positionally)"""
+        if len(prov) != len(gens):
+            return unk("seq_nest_depth", len(prov), len(gens))
+        ren = {}
+        for (pt, pk), (gt, gk) in zip(prov, gens):
+            pk2 = _rename_key(pk, ren)
+            if vkey(pk2) != vkey(gk):
+                return unk("seq_nest_range", repr(pk2)[:60], repr(gk)[:60])
+            ren[pt] = gt
+            ren[pt + "#"] = gt + "#"
+        return _rename_val(item, ren)
 
     def ev_index(self, sl, env, ctx):
         if isinstance(sl, ast.Slice):
@@ -1355,22 +1476,54 @@ class Interp(object):
                                       self.ev(e.orelse, env, ctx))))
 
     def ev_ListComp(self, e, env, ctx):
-        if len(e.generators) != 1:
-            return unk("listcomp")
-        g = e.generators[0]
-        it = self.ev(g.iter, env, ctx)
-        env2 = dict(env)
-        # canonical (alpha-renamed) comprehension variable: depth of nesting, not the source name
-        depth = getattr(self, "_comp_depth", 0)
-        tag = "c%d@c" % depth
-        st = State(env2)
-        self.assign(g.target, self.loop_target_value(g.target, it, tag), st, ctx, e)
-        self._comp_depth = depth + 1
+        depth0 = getattr(self, "_comp_depth", 0)
+        if len(e.generators) == 1 and not e.generators[0].ifs:
+            g = e.generators[0]
+            it = self.ev(g.iter, env, ctx)
+            if not (isinstance(it, SeqList) and it.seq() is not None):
+                env2 = dict(env)
+                # canonical (alpha-renamed) comprehension variable: depth of nesting, not the source name
+                tag = "c%d@c" % depth0
+                st = State(env2)
+                self.assign(g.target, self.loop_target_value(g.target, it, tag), st, ctx, e)
+                self._comp_depth = depth0 + 1
+                try:
+                    elt = self.ev(e.elt, st.env, ctx)
+                finally:
+                    self._comp_depth = depth0
+                return Rat.atom(Fn("listcomp", (elt, tag, _itkey(it))))
+        if any(g.ifs for g in e.generators):
+            return unk("listcomp_filter")
+        # several generators, or a comprehension over a sequence built in loops: the result is such a sequence itself
+        st = State(dict(env))
+        prov = []
+        d = depth0
         try:
+            for g in e.generators:
+                it = self.ev(g.iter, st.env, ctx)
+                if isinstance(it, SeqList) and it.seq() is not None:
+                    item, gens = it.seq()
+                    # fresh comprehension variables for the nest that produced the sequence
+                    ren = {}
+                    for (pt, pk) in gens:
+                        nt = "c%d@c" % d
+                        d += 1
+                        prov.append((nt, _rename_key(pk, ren)))
+                        ren[pt] = nt
+                        ren[pt + "#"] = nt + "#"
+                    self.assign(g.target, _rename_val(item, ren), st, ctx, e)
+                elif isinstance(it, RangeVal):
+                    tag = "c%d@c" % d
+                    d += 1
+                    prov.append((tag, _itkey(it)))
+                    self.assign(g.target, self.loop_target_value(g.target, it, tag), st, ctx, e)
+                else:
+                    return unk("listcomp")
+                self._comp_depth = d
             elt = self.ev(e.elt, st.env, ctx)
         finally:
-            self._comp_depth = depth
-        return Rat.atom(Fn("listcomp", (elt, tag, _itkey(it))))
+            self._comp_depth = depth0
+        return SeqList([elt], [tuple(prov)])
 
     ev_GeneratorExp = ev_ListComp
 
@@ -1583,6 +1736,15 @@ class Interp(object):
             return unk("shapemethod", name)
         if isinstance(recv, ModTable):
             return unk("tablemethod", name)
+        if name in ("map", "starmap") and len(args) >= 2 and isinstance(args[0], FuncRef) and isinstance(args[1], list) \
+                and not isinstance(recv, (list, str)):
+            # an order-preserving map over a list built in loops: the list of the results, produced by the same nest
+            src = args[1]
+            outs_ = []
+            for item in src:
+                call_args = list(item) if (name == "starmap" and isinstance(item, (tuple, list))) else [item]
+                outs_.append(self.call_repo(args[0].finfo, call_args, {}, ctx))
+            return SeqList(outs_, src.prov if isinstance(src, SeqList) else None)
         if not isinstance(recv, Rat):
             return unk("method", name)
         x = recv
@@ -1642,6 +1804,25 @@ class Interp(object):
             if r is not NotImplemented:
                 return r
         return Rat.atom(Fn("?ext:" + dotted, tuple(args) + tuple(("kw:" + k, v) for k, v in sorted(kwargs.items()))))
+
+
+def _rename_val(v, ren):
+    if isinstance(v, (tuple, list)):
+        return type(v)(_rename_val(x, ren) for x in v) if not isinstance(v, SeqList) else v
+    if not isinstance(v, Rat) or not ren:
+        return v
+
+    def f(a):
+        if isinstance(a, Sym) and a.name in ren and ren[a.name] != a.name:
+            return Rat.atom(Sym(ren[a.name], a.flags))
+        return None
+    return v.subst(f)
+
+
+def _rename_key(k, ren):
+    if isinstance(k, tuple):
+        return tuple(_rename_key(x, ren) for x in k)
+    return _rename_val(k, ren)
 
 
 def _safe_equals(a, b):
@@ -1888,6 +2069,35 @@ def _range(I, a, k, e, env, ctx):
 @ext("builtins.enumerate")
 def _enumerate(I, a, k, e, env, ctx):
     return ("enumerate", a[0])
+
+
+@ext("builtins.iter")
+def _iter(I, a, k, e, env, ctx):
+    if len(a) == 1 and isinstance(a[0], SeqList) and a[0].seq() is not None:
+        return IterVal(a[0], getattr(ctx, "loop_depth", 0))
+    return NotImplemented
+
+
+@ext("builtins.next")
+def _next(I, a, k, e, env, ctx):
+    if len(a) == 1 and isinstance(a[0], IterVal):
+        itv = a[0]
+        stack = list(getattr(ctx, "loop_stack", []))[itv.depth:]
+        if not stack:
+            return unk("next_outside_loop")
+        # next() must be evaluated exactly once per innermost iteration: a statement of the innermost loop's body
+        inner = stack[-1][2]
+        top = [st_ for st_ in inner.body if any(n is e for n in ast.walk(st_))]
+        if len(top) != 1 or isinstance(top[0], (ast.If, ast.For, ast.While, ast.Try)):
+            return unk("next_not_once_per_iteration")
+        others = [n for st_ in inner.body for n in ast.walk(st_)
+                  if isinstance(n, ast.Call) and isinstance(n.func, ast.Name) and n.func.id == "next" and n is not e
+                  and n.args and norm_text(n.args[0]) == norm_text(e.args[0])]
+        if others:
+            return unk("next_several_per_iteration")
+        item, prov = itv.seq.seq()
+        return I.align_seq(item, prov, tuple((t_, k_) for t_, k_, _n in stack))
+    return NotImplemented
 
 
 @ext("builtins.zip")
